@@ -75,6 +75,17 @@ def nproc():
 def _worker_init(env):
     os.environ.update(env)
     setup_env()
+    ppid = os.getppid()
+
+    def _watch():  # never outlive the parent (a killed check must not leave 16 busy orphans behind)
+        while True:
+            time.sleep(2.0)
+            if os.getppid() != ppid:
+                os._exit(3)
+
+    import threading
+
+    threading.Thread(target=_watch, daemon=True).start()
 
 
 def _call(packed):
